@@ -12,7 +12,7 @@
    a cut between two commands, i.e. [detach] applied to a reachable state. *)
 From Coq Require Import List NArith ZArith Bool Arith Lia.
 From Muscle Require Import Gen.Consts Refl.Base Refl.BaseProofs Refl.Tree Refl.TreeProofs Refl.Matcher Refl.MatcherProofs
-     Refl.Traverse Refl.Session Refl.Server Refl.ServerProofs Refl.IsoModel Refl.IsoBase Refl.IsoTold.
+     Refl.Traverse Refl.TraverseSpec Refl.Session Refl.Server Refl.ServerProofs Refl.IsoModel Refl.IsoBase Refl.IsoTold.
 Import ListNotations.
 
 Section Detach.
@@ -30,7 +30,8 @@ Lemma map_core_filter : forall (l l' : list session) s, map core l' = map core l
   map core (filter (fun x => negb (N.eqb (s_id x) s)) l') = map core (filter (fun x => negb (N.eqb (s_id x) s)) l).
 Proof.
   induction l as [|x l IH]; intros [|y l'] s H; cbn in *; try discriminate; [reflexivity|].
-  inversion H as [[H1 H2]]. assert (Hid : s_id y = s_id x) by (unfold core in H1; congruence).
+  assert (H1 : core y = core x) by congruence. assert (H2 : map core l' = map core l) by congruence.
+  assert (Hid : s_id y = s_id x) by (unfold core in H1; congruence).
   rewrite Hid. destruct (negb (N.eqb (s_id x) s)); cbn; [f_equal; [exact H1|]|]; now apply IH.
 Qed.
 
@@ -63,12 +64,13 @@ Proof.
   destruct H2 as [Ht2 Hs2].
   destruct (push_all_core sv2) as [Ht3 Hs3]. set (sv3 := push_all sv2) in *.
   assert (W3 : wf_tree (sv_tree sv3)).
-  { rewrite Ht3, Ht2. destruct (has_children _ _); repeat apply wf_tree_prune; apply (inv_tree _ _ _ I). }
+  { rewrite Ht3, Ht2. destruct (has_children (prune_tree (sv_tree sv) (session_dir ss)) [s_host ss]);
+      repeat apply wf_tree_prune; apply (inv_tree _ _ _ I). }
   assert (Wm : wf_groups (m_groups (s_subs ss))) by (apply (inv_subs _ _ _ I ss Hin)).
   split.
   - cbn [sv_tree]. unfold tree_without. rewrite Hid. rewrite <- Ht2, <- Ht3.
     destruct (sv_tree sv3) as [|n0 t0] eqn:E3; [reflexivity|]. rewrite <- E3.
-    now apply mark_nodes_spec.
+    apply (mark_nodes_spec fx guard_on); [rewrite E3; exact W3|exact Wm].
   - cbn [sv_sessions]. apply map_core_filter. congruence.
 Qed.
 
@@ -83,7 +85,7 @@ Proof.
   { destruct (has_children _ _); [exact H2|]. apply in_prune in H2. tauto. }
   apply in_prune in Hn as [Hn1 Hn2]. exists n. split; [exact Hn1|]. split; [exact Hn2|].
   subst n'. destruct (matches_node _ _ _ _); [|repeat split; reflexivity].
-  unfold adj_node. cbn. repeat split; try reflexivity. apply tbl_without_adjust.
+  unfold adj_node. cbn [n_path n_data n_subs]. repeat split; try reflexivity. apply tbl_without_adjust.
 Qed.
 
 (* DETACH, part 1: nothing at or below the departed session's directory is left *)
@@ -165,7 +167,8 @@ Proof.
     assert (Hc : In c (children t1 [s_host ss])) by (rewrite Ec; now left).
     apply children_in in Hc as [Hc1 [k Hk]]. apply in_prune in Hc1 as [Hc1 Hc2].
     destruct (inv_depth2 _ _ _ I c Hc1) as [x [Hx1 Hx2]]; [rewrite Hk; reflexivity|].
-    exists x. split; [exact Hx1|]. rewrite Hk in Hx2. unfold session_dir in Hx2. inversion Hx2 as [[Hh Hn]].
+    exists x. split; [exact Hx1|]. rewrite Hk in Hx2.
+    assert (Hh : s_host x = s_host ss) by (unfold session_dir in Hx2; cbn in Hx2; congruence).
     split; [|exact Hh]. intros E. assert (x = ss) by (apply (session_unique sv s ss x (inv_ids _ _ _ I) Hss Hx1 E)). subst x.
     rewrite Hk in Hc2. rewrite <- Hx2, is_prefix_refl in Hc2. discriminate.
   - intros [x [Hx1 [Hx2 Hx3]]].
@@ -186,6 +189,140 @@ Proof.
     + rewrite Hc2. unfold session_dir. now rewrite Hx3.
     + discriminate.
     + apply has_node_spec. eauto.
+Qed.
+
+(* ------------------------------------------------------------------ DETACH, part 6: the subscribers are told *)
+
+Definition same_core_sessions (sv sv' : server) : Prop := map core (sv_sessions sv') = map core (sv_sessions sv).
+
+Lemma sessions_core_session : forall sv sv' t st, same_core_sessions sv sv' -> get_session sv t = Some st ->
+  exists st', get_session sv' t = Some st' /\ s_subs st' = s_subs st /\ s_id st' = s_id st.
+Proof.
+  intros sv sv' t st Hc Hs. unfold get_session in *. pose proof (find_session_core _ _ t Hc) as H. rewrite Hs in H.
+  destruct (find_session (sv_sessions sv') t) as [st'|]; [|contradiction]. exists st'. split; [reflexivity|]. unfold core in H. split; congruence.
+Qed.
+
+Lemma told_set_tree_ : forall sv tr t p, told sv t p -> told (set_tree sv tr) t p.
+Proof. intros sv tr t p H. exact H. Qed.
+
+(* the condition under which session st is owed a removal notice for a node (NodeChanged, 318-355): it is marked on the node,
+   and if it uses filters at all, one of its subscriptions accepts the node's current payload *)
+Definition owed (st : session) (n : node) : Prop :=
+  In (s_id st) (map fst (n_subs n)) /\
+  (N.ltb 0 (m_nfilters (s_subs st)) = true -> matches_node (s_subs st) (n_path n) (Some (n_data n)) 0 = true).
+
+Lemma same_core_session : forall sv sv' t st, same_core sv sv' -> get_session sv t = Some st ->
+  exists st', get_session sv' t = Some st' /\ s_subs st' = s_subs st /\ s_id st' = s_id st.
+Proof.
+  intros sv sv' t st Hc Hs. pose proof (get_session_core sv sv' t Hc) as H. rewrite Hs in H.
+  destruct (get_session sv' t) as [st'|]; [|contradiction]. exists st'. split; [reflexivity|]. unfold core in H. split; congruence.
+Qed.
+
+(* NotifySubscribersThatNodeChanged(node, its data, being removed) called on session by_ tells every other owed subscriber *)
+Lemma notify_removed_tells : forall sv by_ n t st,
+  find_node (sv_tree sv) (n_path n) = Some n -> get_session sv t = Some st -> t <> by_ -> owed st n ->
+  told (notify_changed sv by_ (n_path n) (n_data n) (Some (n_data n)) true) t (n_path n).
+Proof.
+  intros sv by_ n t st Hf Hs Hne [Hin Hflt]. unfold notify_changed. rewrite Hf.
+  assert (Hid : s_id st = t) by (eapply get_session_some_id; eassumption). rewrite Hid in Hin.
+  assert (G : forall (l : list (sid * N)) sv', same_core sv sv' -> In t (map fst l) ->
+              told (fold_left (fun sv'0 (kc : sid * N) => if N.eqb (fst kc) by_ then sv'0
+                                             else node_changed sv'0 (fst kc) (n_path n) (n_data n) (Some (n_data n)) true) l sv') t (n_path n)).
+  { induction l as [|kc l IH]; intros sv' Hc Hl; [destruct Hl|]. cbn [fold_left].
+    assert (Mono : forall (l0 : list (sid * N)) sv0, told sv0 t (n_path n) ->
+              told (fold_left (fun sv'0 (kc0 : sid * N) => if N.eqb (fst kc0) by_ then sv'0
+                                              else node_changed sv'0 (fst kc0) (n_path n) (n_data n) (Some (n_data n)) true) l0 sv0) t (n_path n)).
+    { induction l0 as [|kc0 l0 IH0]; intros sv0 H0; cbn [fold_left]; [exact H0|]. apply IH0.
+      destruct (N.eqb _ _); [exact H0|now apply told_node_changed]. }
+    destruct Hl as [Hl|Hl].
+    - rewrite Hl. assert (N.eqb t by_ = false) as -> by now apply N.eqb_neq. apply Mono.
+      destruct (same_core_session sv sv' t st Hc Hs) as [st' [Hs' [Hsub _]]].
+      eapply node_changed_tells; [exact Hs'|]. rewrite Hsub. exact Hflt.
+    - apply IH; [|exact Hl]. destruct (N.eqb _ _); [exact Hc|]. eapply same_core_trans; [exact Hc|apply node_changed_core]. }
+  apply G; [apply same_core_refl|exact Hin].
+Qed.
+
+Lemma remove_node_keeps : forall t q n, In n t -> n_path n <> q -> In n (remove_node t q).
+Proof.
+  intros t q n Hn Hq. unfold remove_node. apply filter_In. split; [exact Hn|]. apply negb_true_iff. now apply path_eqb_neq.
+Qed.
+
+Lemma remove_node_nodup : forall t q, NoDup (map n_path t) -> NoDup (map n_path (remove_node t q)).
+Proof. intros t q H. unfold remove_node. now apply NoDup_map_filter. Qed.
+
+(* DataNode::RemoveChild(.., notify, recurse): every owed subscriber of every node of the subtree is told *)
+Lemma remove_subtree_tells : forall sv by_ p n t st,
+  wf_tree (sv_tree sv) -> p <> [] -> In n (sv_tree sv) -> is_prefix p (n_path n) = true ->
+  get_session sv t = Some st -> t <> by_ -> owed st n ->
+  told (remove_subtree sv by_ p true) t (n_path n).
+Proof.
+  intros sv by_ p n t st Hwf Hp Hn Hpre Hs Hne Ho. unfold remove_subtree.
+  assert (Hord : In (n_path n) (removal_order (S (length (sv_tree sv))) (sv_tree sv) p)).
+  { apply pmem_spec. rewrite removal_order_mem; auto. }
+  revert Hord. generalize (removal_order (S (length (sv_tree sv))) (sv_tree sv) p). intros l.
+  set (step := fun (sv' : server) (q : path) =>
+                 match find_node (sv_tree sv') q with
+                 | Some n0 => set_tree (notify_changed sv' by_ q (n_data n0) (Some (n_data n0)) true)
+                                       (remove_node (sv_tree (notify_changed sv' by_ q (n_data n0) (Some (n_data n0)) true)) q)
+                 | None => sv'
+                 end).
+  change (In (n_path n) l -> told (fold_left step l sv) t (n_path n)).
+  assert (Mono : forall l0 sv0, told sv0 t (n_path n) -> told (fold_left step l0 sv0) t (n_path n)).
+  { induction l0 as [|q l0 IH0]; intros sv0 H0; cbn [fold_left]; [exact H0|]. apply IH0. unfold step.
+    destruct (find_node _ _); [|exact H0]. apply told_set_tree_. now apply told_notify_changed. }
+  assert (G : forall sv', same_core_sessions sv sv' -> NoDup (map n_path (sv_tree sv')) -> In n (sv_tree sv') ->
+              In (n_path n) l -> told (fold_left step l sv') t (n_path n)).
+  { induction l as [|q l IH]; intros sv' Hc Hnd Hin Hl; [destruct Hl|]. cbn [fold_left].
+    destruct (path_eqb q (n_path n)) eqn:Eq.
+    - apply path_eqb_eq in Eq. subst q. apply Mono. unfold step.
+      rewrite (find_node_in _ n Hnd Hin). apply told_set_tree_.
+      destruct (sessions_core_session sv sv' t st Hc Hs) as [st' [Hs' [Hsub Hid']]].
+      apply (notify_removed_tells sv' by_ n t st'); [now apply find_node_in|exact Hs'|exact Hne|].
+      destruct Ho as [Ho1 Ho2]. split; [now rewrite Hid'|now rewrite Hsub].
+    - apply path_eqb_neq in Eq. destruct Hl as [Hl|Hl]; [contradiction|].
+      unfold step at 2. destruct (find_node (sv_tree sv') q) as [n0|].
+      + destruct (notify_changed_core sv' by_ q (n_data n0) (Some (n_data n0)) true) as [Ht Hss].
+        apply IH; [| | |exact Hl]; cbn [sv_tree sv_sessions set_tree]; rewrite ?Ht.
+        * unfold same_core_sessions in *. cbn [sv_sessions set_tree]. congruence.
+        * now apply remove_node_nodup.
+        * apply remove_node_keeps; [exact Hin|congruence].
+      + now apply IH. }
+  apply G; [reflexivity|apply Hwf|exact Hn].
+Qed.
+
+Lemma told_remove_subtree : forall sv by_ p notify t q, told sv t q -> told (remove_subtree sv by_ p notify) t q.
+Proof.
+  intros sv by_ p notify t q H. unfold remove_subtree.
+  generalize (removal_order (S (length (sv_tree sv))) (sv_tree sv) p). intros l. revert sv H.
+  induction l as [|x l IH]; intros sv H; cbn [fold_left]; [exact H|]. apply IH.
+  destruct (find_node _ _); [|exact H]. apply told_set_tree_. destruct notify; [now apply told_notify_changed|exact H].
+Qed.
+
+(* DETACH, part 6: every other session that is owed a notice for a node of the departed session's subtree holds a
+   PR_RESULT_DATAITEMS Message (handed to its gateway or still pending) that lists the node as removed *)
+Theorem detach_tells : forall B sv s ss n t st, inv B sv -> get_session sv s = Some ss ->
+  In n (sv_tree sv) -> is_prefix (session_dir ss) (n_path n) = true ->
+  t <> s -> get_session sv t = Some st -> owed st n ->
+  told (detach fx sv s) t (n_path n).
+Proof.
+  intros B sv s ss n t st I Hss Hn Hpre Hne Hst Ho. unfold detach. rewrite Hss.
+  assert (Hin : In ss (sv_sessions sv)) by (apply find_session_some in Hss; tauto).
+  pose proof (inv_dirs_exist B sv ss I Hin) as Hdir.
+  assert (Hhost : has_node (sv_tree sv) [s_host ss] = true).
+  { apply has_node_spec in Hdir as [n0 [H1 H2]].
+    destruct (inv_tree _ _ _ I) as [_ [_ Hp]].
+    destruct (Hp n0 [s_host ss] [s_name ss] H1 H2) as [n' [H3 H4]]; [discriminate|].
+    apply has_node_spec. eauto. }
+  rewrite Hhost, Hdir.
+  assert (T1 : told (remove_subtree sv s (session_dir ss) true) t (n_path n)).
+  { apply (remove_subtree_tells sv s (session_dir ss) n t st); auto; [apply (inv_tree _ _ _ I)|discriminate]. }
+  set (sv1 := remove_subtree sv s (session_dir ss) true) in *.
+  match goal with |- context [push_all ?X] => assert (T2 : told X t (n_path n)) end.
+  { destruct (has_children _ _); [exact T1|now apply told_remove_subtree]. }
+  match goal with |- context [push_all ?X] => set (sv2 := X) in * end.
+  pose proof (told_push_all sv2 t (n_path n) T2) as T3.
+  destruct T3 as [s3 [Hs3 Ht3]]. exists s3. split; [|exact Ht3].
+  unfold get_session in *. cbn [sv_sessions]. rewrite find_session_filter; [exact Hs3|congruence].
 Qed.
 
 End Detach.
